@@ -108,8 +108,33 @@ def is_valid_rule(rep, prog):
     return n
 
 
+_INSPECT = ('isinstance', 'type', 'id', 'hasattr', 'callable', 'bool', 'len', 'repr')
+_PASSIVE = set()
+
+
+def _mark_passive(fn, par):
+    """Reads that do not consume the argument: identity / type tests, truth tests, len()."""
+    _PASSIVE.clear()
+
+    def is_par(x):
+        return isinstance(x, ast.Name) and x.id == par
+    for n in ast.walk(fn):
+        if isinstance(n, ast.Compare) and all(isinstance(o, (ast.Is, ast.IsNot)) for o in n.ops):
+            _PASSIVE.update(id(x) for x in [n.left] + n.comparators if is_par(x))
+        elif isinstance(n, ast.Call) and isinstance(n.func, ast.Name) and n.func.id in _INSPECT:
+            _PASSIVE.update(id(x) for x in n.args if is_par(x))
+        elif isinstance(n, ast.UnaryOp) and isinstance(n.op, ast.Not) and is_par(n.operand):
+            _PASSIVE.add(id(n.operand))
+        elif isinstance(n, ast.BoolOp):
+            _PASSIVE.update(id(x) for x in n.values if is_par(x))
+        elif isinstance(n, (ast.If, ast.While, ast.IfExp, ast.Assert)) and is_par(n.test):
+            _PASSIVE.add(id(n.test))
+
+
 def _events(node, par, out):
     """Reads of the parameter in evaluation order: ('load', node, gated) and ('store',)."""
+    if id(node) in _PASSIVE:
+        return
     if isinstance(node, ast.Call):
         fn = node.func
         gated = (isinstance(fn, ast.Attribute) and fn.attr in ('validate', 'is_valid')) or (isinstance(fn, ast.Name) and fn.id in ('validate', 'is_valid'))
@@ -189,6 +214,7 @@ def reuse_rule(rep, prog, skip=()):
         par = fn.args.args[0].arg
         n += 1
         bad = None
+        _mark_passive(fn, par)
         for path in _paths(strip_doc(fn.body), par):
             loads = []
             for e in path:
